@@ -1,7 +1,604 @@
-//! C09 harness module (not implemented yet).
+//! C09: verifiable RSA encryption -- honest proofs verify, decrypt and round-trip.
+//! Real `VerifiableRsaEncryption::{encrypt_with_proof, verify, decrypt, to_bytes, from_bytes}` on secp256k1 and
+//! edwards25519 vs the extracted model (coq/Model/VEnc.v) whose oracles (sha256, curve group, RSA PKCS#1 v1.5 with
+//! ChaCha20Rng::from_seed(seed)) are answered here with the real crates.
+//! The items of this module are shared with c10.rs.
+use crate::oracle::*;
 use crate::util::*;
+use curve25519_dalek::EdwardsPoint;
+use ff::{Field, PrimeField};
+use group::{Group, GroupEncoding};
+use num_bigint_dig::BigUint;
+use rand::{Rng, RngCore, SeedableRng};
+use rand_chacha::ChaCha20Rng;
+use rsa::traits::PublicKeyParts;
+use rsa::{Pkcs1v15Encrypt, RsaPrivateKey, RsaPublicKey};
+use sl_verifiable_enc::{RsaError, VerifiableRsaEncryption};
+use std::collections::BTreeMap;
+use std::io::Write;
+use std::panic::{catch_unwind, AssertUnwindSafe};
+use subtle::{ConditionallySelectable, ConstantTimeEq};
 
-pub fn run(_kv: &Args) -> i32 {
-    eprintln!("c09: not implemented");
-    2
+// ------------------------------------------------------------------------------------------------ curves
+pub trait Cv: Group + GroupEncoding + ConstantTimeEq + 'static
+where
+    Self::Scalar: ConditionallySelectable,
+{
+    const NAME: &'static str;
+    /// byte order of PrimeField::to_repr
+    const BE: bool;
+    const PSIZE: usize;
+    fn order() -> BigUint;
+}
+impl Cv for k256::ProjectivePoint {
+    const NAME: &'static str = "k";
+    const BE: bool = true;
+    const PSIZE: usize = 33;
+    fn order() -> BigUint {
+        q_k256()
+    }
+}
+impl Cv for EdwardsPoint {
+    const NAME: &'static str = "e";
+    const BE: bool = false;
+    const PSIZE: usize = 32;
+    fn order() -> BigUint {
+        BigUint::parse_bytes(b"1000000000000000000000000000000014DEF9DEA2F79CD65812631A5CF5D3ED", 16).unwrap()
+    }
+}
+
+pub fn sc_of_big<G: Cv>(v: &BigUint) -> G::Scalar
+where
+    G::Scalar: ConditionallySelectable,
+{
+    let v = v % G::order();
+    let b = v.to_bytes_be();
+    let mut buf = vec![0u8; 32];
+    buf[32 - b.len()..].copy_from_slice(&b);
+    if !G::BE {
+        buf.reverse();
+    }
+    let mut repr = <G::Scalar as PrimeField>::Repr::default();
+    repr.as_mut().copy_from_slice(&buf);
+    Option::<G::Scalar>::from(G::Scalar::from_repr(repr)).expect("canonical scalar")
+}
+pub fn big_of_sc<G: Cv>(s: &G::Scalar) -> BigUint
+where
+    G::Scalar: ConditionallySelectable,
+{
+    let r = s.to_repr();
+    if G::BE {
+        BigUint::from_bytes_be(r.as_ref())
+    } else {
+        BigUint::from_bytes_le(r.as_ref())
+    }
+}
+pub fn hex_of_big(v: &BigUint) -> String {
+    format!("{:x}", v)
+}
+pub fn big_of_hex(s: &str) -> BigUint {
+    BigUint::parse_bytes(s.as_bytes(), 16).expect("hex int")
+}
+/// hex integer (`~` = negative) reduced into [0, order)
+pub fn sc_of_hex<G: Cv>(s: &str) -> G::Scalar
+where
+    G::Scalar: ConditionallySelectable,
+{
+    let (neg, digits) = match s.strip_prefix('~') {
+        Some(r) => (true, r),
+        None => (false, s),
+    };
+    let q = G::order();
+    let mut v = big_of_hex(digits) % &q;
+    if neg && v != BigUint::from(0u8) {
+        v = &q - v;
+    }
+    sc_of_big::<G>(&v)
+}
+pub fn pt_hex<G: Cv>(p: &G) -> String
+where
+    G::Scalar: ConditionallySelectable,
+{
+    hex::encode(p.to_bytes().as_ref())
+}
+pub fn pt_of_bytes<G: Cv>(b: &[u8]) -> Option<G>
+where
+    G::Scalar: ConditionallySelectable,
+{
+    let mut r = G::Repr::default();
+    if r.as_ref().len() != b.len() {
+        return None;
+    }
+    r.as_mut().copy_from_slice(b);
+    Option::<G>::from(G::from_bytes(&r))
+}
+
+// ------------------------------------------------------------------------------------------------ RSA keys
+pub struct Keys {
+    pub map: BTreeMap<String, (RsaPrivateKey, RsaPublicKey)>,
+}
+impl Keys {
+    /// keys generated once per run from the seed; `ids` are names like "a1024", "b1024", "a2048"
+    pub fn generate(seed: u64, ids: &[&str]) -> Keys {
+        let mut map = BTreeMap::new();
+        for id in ids {
+            let bits: usize = id[1..].parse().expect("key id = letter + bits");
+            let mut r = rng(seed, &format!("venc-key-{id}"));
+            let sk = RsaPrivateKey::new(&mut r, bits).expect("RSA key generation");
+            let pk = sk.to_public_key();
+            map.insert(id.to_string(), (sk, pk));
+        }
+        Keys { map }
+    }
+    pub fn sk(&self, id: &str) -> &RsaPrivateKey {
+        &self.map[id].0
+    }
+    pub fn pk(&self, id: &str) -> &RsaPublicKey {
+        &self.map[id].1
+    }
+}
+
+// ------------------------------------------------------------------------------------------------ oracles of the model
+/// Oracles served for the extracted model (besides the standard ones of oracle.rs).
+pub fn venc_oracle(keys: &Keys, name: &str, a: &[&str]) -> Option<Vec<String>> {
+    use curve25519_dalek::Scalar as ES;
+    let ept = |s: &str| pt_of_bytes::<EdwardsPoint>(&unhx(s));
+    Some(match name {
+        "rsa_n" => vec![hex_of_big(keys.map.get(a[0])?.1.n())],
+        // exactly as rsa_encrypt_with_label calls it
+        "rsa_enc" => {
+            let seed: [u8; 32] = unhx(a[0]).try_into().ok()?;
+            let pk = &keys.map.get(a[1])?.1;
+            let mut r = ChaCha20Rng::from_seed(seed);
+            match pk.encrypt(&mut r, Pkcs1v15Encrypt, &unhx(a[2])) {
+                Ok(c) => vec!["1".into(), hx(&c)],
+                Err(_) => vec!["0".into()],
+            }
+        }
+        "rsa_dec" => {
+            let sk = &keys.map.get(a[0])?.0;
+            match sk.decrypt(Pkcs1v15Encrypt, &unhx(a[1])) {
+                Ok(m) => vec!["1".into(), hx(&m)],
+                Err(_) => vec!["0".into()],
+            }
+        }
+        // GroupEncoding::from_bytes of k256 (33 bytes; all-zero = identity); answer in the format of the standard oracles
+        "kdec33" => match pt_of_bytes::<k256::ProjectivePoint>(&unhx(a[0])) {
+            Some(p) => vec!["1".into(), point_hex(&p)],
+            None => vec!["0".into()],
+        },
+        "eadd" => vec![pt_hex(&(ept(a[0])? + ept(a[1])?))],
+        "eneg" => vec![pt_hex(&(-ept(a[0])?))],
+        "esmul" => {
+            let k: ES = sc_of_hex::<EdwardsPoint>(a[0]);
+            vec![pt_hex(&(ept(a[1])? * k))]
+        }
+        "egen" => vec![pt_hex(&EdwardsPoint::generator())],
+        "eid" => vec![pt_hex(&EdwardsPoint::identity())],
+        "edec" => match ept(a[0]) {
+            Some(p) => vec!["1".into(), pt_hex(&p)],
+            None => vec!["0".into()],
+        },
+        _ => return None,
+    })
+}
+
+pub struct Model<'a> {
+    pub drv: Driver,
+    pub keys: &'a Keys,
+}
+impl<'a> Model<'a> {
+    pub fn new(keys: &'a Keys) -> Self {
+        Model { drv: Driver::spawn(), keys }
+    }
+    pub fn call(&mut self, name: &str, args: &[String]) -> String {
+        let keys = self.keys;
+        let t0 = std::time::Instant::now();
+        let mut t_or = std::time::Duration::ZERO;
+        let q0 = self.drv.queries;
+        let res = self.drv.run_with(name, args, &mut |o, a| {
+            let t1 = std::time::Instant::now();
+            let r = venc_oracle(keys, o, a);
+            t_or += t1.elapsed();
+            r
+        });
+        if std::env::var("VENC_TIMING").is_ok() {
+            eprintln!("model {name}: {:?} total, {:?} in venc oracles, {} queries", t0.elapsed(), t_or, self.drv.queries - q0);
+        }
+        match res {
+            Ok(v) => v.join(" "),
+            Err(e) => format!("MODEL-ERROR {e}"),
+        }
+    }
+    pub fn reset(&mut self) {
+        self.call("c09.reset", &[]);
+    }
+    /// -> "V <handle>" | "E <code>" | "P <site>"
+    pub fn from_bytes(&mut self, curve: &str, d: &[u8]) -> String {
+        self.call("c09.frombytes", &[curve.into(), hx(d)])
+    }
+    pub fn to_bytes(&mut self, curve: &str, h: &str) -> String {
+        self.call("c09.tobytes", &[curve.into(), h.into()])
+    }
+    pub fn verify(&mut self, curve: &str, h: &str, q: &str, pk: &str, label: &[u8]) -> String {
+        self.call("c09.verify", &[curve.into(), h.into(), q.into(), pk.into(), hx(label)])
+    }
+    pub fn decrypt(&mut self, curve: &str, h: &str, q: &str, sk: &str, label: &[u8]) -> String {
+        self.call("c09.decrypt", &[curve.into(), h.into(), q.into(), sk.into(), hx(label)])
+    }
+}
+/// handle of a "V <handle>" answer
+pub fn handle(ans: &str) -> Option<String> {
+    ans.strip_prefix("V ").map(|s| s.to_string())
+}
+/// the model reports panic sites; only the class is comparable with the implementation
+pub fn canon(ans: &str) -> String {
+    if ans.starts_with("P ") {
+        "P".into()
+    } else {
+        ans.to_string()
+    }
+}
+
+// ------------------------------------------------------------------------------------------------ results of the real code
+pub fn err_code(e: &RsaError) -> u32 {
+    match e {
+        RsaError::EncError => 1,
+        RsaError::DecError => 2,
+        RsaError::InvalidLabel => 3,
+        RsaError::VerificationFailed => 4,
+        RsaError::InvalidSizeParam => 5,
+        RsaError::InvalidSecurityParam => 7,
+        RsaError::SerdeError(m) => {
+            10 + match m.as_str() {
+                "Input data too short" => 0,
+                "Inconsistent scalar size" => 1,
+                "Inconsistent g_r size" => 2,
+                "Security param must at least be 128" => 3,
+                "Security param must at most be 256" => 4,
+                "Inconsistent number of proofs, must be equal to the security parameter" => 5,
+                "Inconsistent data length" => 6,
+                "Unexpected end of data while reading proofs" => 7,
+                "Unexpected end of data while reading scalars" => 8,
+                "Invalid scalar" => 9,
+                _ => 99,
+            }
+        }
+    }
+}
+pub fn quiet_panics() {
+    std::panic::set_hook(Box::new(|_| {}));
+}
+pub fn real_from_bytes<G: Cv>(d: &[u8]) -> (String, Option<VerifiableRsaEncryption<G>>)
+where
+    G::Scalar: ConditionallySelectable,
+{
+    match catch_unwind(AssertUnwindSafe(|| VerifiableRsaEncryption::<G>::from_bytes(d))) {
+        Ok(Ok(p)) => ("V".into(), Some(p)),
+        Ok(Err(e)) => (format!("E {}", err_code(&e)), None),
+        Err(_) => ("P".into(), None),
+    }
+}
+pub fn real_verify<G: Cv>(p: &VerifiableRsaEncryption<G>, q: &G, pk: &RsaPublicKey, label: &[u8]) -> String
+where
+    G::Scalar: ConditionallySelectable,
+{
+    match catch_unwind(AssertUnwindSafe(|| p.verify(q, pk, label))) {
+        Ok(Ok(())) => "V".into(),
+        Ok(Err(e)) => format!("E {}", err_code(&e)),
+        Err(_) => "P".into(),
+    }
+}
+pub fn real_decrypt<G: Cv>(p: &VerifiableRsaEncryption<G>, q: &G, sk: &RsaPrivateKey, label: &[u8]) -> String
+where
+    G::Scalar: ConditionallySelectable,
+{
+    match catch_unwind(AssertUnwindSafe(|| p.decrypt(q, sk, label))) {
+        Ok(Ok(x)) => format!("V {}", hex_of_big(&big_of_sc::<G>(&x))),
+        Ok(Err(e)) => format!("E {}", err_code(&e)),
+        Err(_) => "P".into(),
+    }
+}
+pub fn real_to_bytes<G: Cv>(p: &VerifiableRsaEncryption<G>) -> Option<Vec<u8>>
+where
+    G::Scalar: ConditionallySelectable,
+{
+    catch_unwind(AssertUnwindSafe(|| p.to_bytes())).ok()
+}
+
+// ------------------------------------------------------------------------------------------------ crafted rngs
+/// ChaCha20 stream whose `fill_bytes` blocks are post-processed so that the scalars drawn from it have `zeros`
+/// leading zero bytes in their `to_repr` (top bytes on secp256k1: 32-byte rejection-sampling blocks; lowest bytes on
+/// edwards25519: 64-byte wide-reduction blocks, made canonical so that the reduction is the identity).
+#[derive(Clone)]
+pub struct CraftedRng {
+    pub inner: ChaCha20Rng,
+    pub zeros: usize,
+}
+impl RngCore for CraftedRng {
+    fn next_u32(&mut self) -> u32 {
+        self.inner.next_u32()
+    }
+    fn next_u64(&mut self) -> u64 {
+        self.inner.next_u64()
+    }
+    fn fill_bytes(&mut self, dest: &mut [u8]) {
+        self.inner.fill_bytes(dest);
+        if dest.len() == 32 {
+            for b in dest.iter_mut().take(self.zeros) {
+                *b = 0;
+            }
+        } else if dest.len() == 64 {
+            for b in dest.iter_mut().skip(32) {
+                *b = 0;
+            }
+            dest[31] &= 0x0f;
+            for b in dest.iter_mut().take(self.zeros) {
+                *b = 0;
+            }
+        }
+    }
+    fn try_fill_bytes(&mut self, dest: &mut [u8]) -> Result<(), rand::Error> {
+        self.fill_bytes(dest);
+        Ok(())
+    }
+}
+impl rand::CryptoRng for CraftedRng {}
+
+/// The random tape of encrypt_with_proof, read off a replica of the rng: (seed, nonces).
+pub fn tape_of<G: Cv, R: RngCore + Clone>(r: &R, sp: usize) -> ([u8; 32], Vec<G::Scalar>)
+where
+    G::Scalar: ConditionallySelectable,
+{
+    let mut r2 = r.clone();
+    let seed = r2.gen::<[u8; 32]>();
+    let rs = (0..sp).map(|_| G::Scalar::random(&mut r2)).collect();
+    (seed, rs)
+}
+
+// ------------------------------------------------------------------------------------------------ result file
+#[derive(Default)]
+pub struct Report {
+    pub n_eval: u64,
+    pub n_nontrivial: u64,
+    pub kinds: BTreeMap<String, u64>,
+    pub disagree: Vec<String>,
+    pub oracle: Vec<String>,
+    pub samples: Vec<String>,
+}
+impl Report {
+    pub fn kind(&mut self, k: &str) {
+        *self.kinds.entry(k.to_string()).or_default() += 1;
+    }
+    /// one comparison of an implementation result with the model's
+    pub fn cmp(&mut self, what: &str, ctx: &str, real: &str, model: &str) {
+        self.n_eval += 1;
+        if real != canon(model) {
+            let cut = |s: &str| if s.len() > 200 { format!("{}..({} chars)", &s[..200], s.len()) } else { s.to_string() };
+            self.disagree.push(format!("{what}: impl [{}] model [{}] :: {ctx}", cut(real), cut(model)));
+        }
+    }
+    pub fn write(&self, out: &str, queries: u64) {
+        let mut f = std::fs::File::create(format!("{out}/result.txt")).unwrap();
+        writeln!(f, "evaluations {}", self.n_eval).unwrap();
+        writeln!(f, "mutations {}", self.n_nontrivial).unwrap();
+        writeln!(f, "oracle_queries {queries}").unwrap();
+        for (k, v) in &self.kinds {
+            writeln!(f, "kind {k} {v}").unwrap();
+        }
+        for s in &self.samples {
+            writeln!(f, "SAMPLE {s}").unwrap();
+        }
+        for d in &self.disagree {
+            writeln!(f, "DISAGREE {d}").unwrap();
+        }
+        for d in &self.oracle {
+            writeln!(f, "ORACLE {d}").unwrap();
+        }
+    }
+}
+
+// ------------------------------------------------------------------------------------------------ C09 cases
+#[derive(Clone, Debug)]
+pub struct Case {
+    pub id: usize,
+    pub key: String,
+    pub xkind: usize,
+    pub label_len: usize,
+    pub sp: Option<usize>,
+    /// 0 = plain ChaCha20; k > 0 = crafted rng with k leading zero repr bytes in every nonce
+    pub zeros: usize,
+}
+
+/// scalar classes: 0, 1, q-1, leading zero byte, trailing zero byte, two leading zero bytes, random
+pub fn scalar_of_kind<G: Cv>(kind: usize, r: &mut ChaCha20Rng) -> G::Scalar
+where
+    G::Scalar: ConditionallySelectable,
+{
+    let q = G::order();
+    let mut b = [0u8; 32];
+    r.fill_bytes(&mut b);
+    let v = BigUint::from_bytes_be(&b) % &q;
+    let v = match kind % 7 {
+        0 => BigUint::from(0u8),
+        1 => BigUint::from(1u8),
+        2 => &q - BigUint::from(1u8),
+        3 => v >> 8usize,                        // top byte zero (value < 2^248)
+        4 => ((v >> 8usize) << 8usize) % &q,    // lowest byte zero
+        5 => v >> 16usize,                       // two top bytes zero
+        _ => v,
+    };
+    sc_of_big::<G>(&v)
+}
+
+fn run_case<G: Cv>(c: &Case, seed: u64, m: &mut Model, rep: &mut Report, log: &mut std::fs::File)
+where
+    G::Scalar: ConditionallySelectable,
+{
+    let cv = G::NAME;
+    let mut r = rng(seed, &format!("c09-case-{cv}-{}", c.id));
+    let x: G::Scalar = scalar_of_kind::<G>(c.xkind, &mut r);
+    let mut label = vec![0u8; c.label_len];
+    r.fill_bytes(&mut label);
+    let q_point = G::generator() * x;
+    let qh = pt_hex(&q_point);
+    let (sk, pk) = (m.keys.sk(&c.key).clone(), m.keys.pk(&c.key).clone());
+    let sp_n = c.sp.unwrap_or(128);
+    let tape_len = if (128..=256).contains(&sp_n) { sp_n } else { 0 };
+    let ctx = format!("curve={cv} case={} key={} x={} label={} sp={:?} zeros={}", c.id, c.key,
+        hex_of_big(&big_of_sc::<G>(&x)), hx(&label), c.sp, c.zeros);
+    // the real prover, and the tape it consumed
+    let base = rng(seed, &format!("c09-rng-{cv}-{}", c.id));
+    let (res, seed32, rs) = if c.zeros == 0 {
+        let mut pr = base.clone();
+        let (s, rs) = tape_of::<G, _>(&base, tape_len);
+        (catch_unwind(AssertUnwindSafe(|| VerifiableRsaEncryption::<G>::encrypt_with_proof(&x, &pk, &label, c.sp, &mut pr))), s, rs)
+    } else {
+        let cr = CraftedRng { inner: base, zeros: c.zeros };
+        let mut pr = cr.clone();
+        let (s, rs) = tape_of::<G, _>(&cr, tape_len);
+        (catch_unwind(AssertUnwindSafe(|| VerifiableRsaEncryption::<G>::encrypt_with_proof(&x, &pk, &label, c.sp, &mut pr))), s, rs)
+    };
+    if c.zeros > 0 {
+        // the crafted rng must really produce short encodings
+        for s in &rs {
+            let repr = s.to_repr();
+            assert!(repr.as_ref()[..c.zeros].iter().all(|b| *b == 0), "crafted rng produced a full-length nonce");
+        }
+    }
+    let tape = if rs.is_empty() { "-".to_string() } else { rs.iter().map(|s| hex_of_big(&big_of_sc::<G>(s))).collect::<Vec<_>>().join(",") };
+    let sp_arg = match c.sp { Some(s) => s.to_string(), None => "none".into() };
+    let mres = m.call("c09.encrypt", &[cv.into(), c.key.clone(), hex_of_big(&big_of_sc::<G>(&x)), hx(&label), sp_arg, hx(&seed32), tape]);
+    let real = match &res {
+        Ok(Ok(_)) => "V".to_string(),
+        Ok(Err(e)) => format!("E {}", err_code(e)),
+        Err(_) => "P".into(),
+    };
+    let mclass = if mres.starts_with("V ") { "V".to_string() } else { mres.clone() };
+    rep.cmp("encrypt_with_proof", &ctx, &real, &mclass);
+    rep.kind(&format!("{cv}-encrypt-{}", if real == "V" { "ok" } else { "refused" }));
+    writeln!(log, "{ctx} -> encrypt {real}").unwrap();
+    // implementation-only oracle: range of the security parameter
+    let in_range = (128..=256).contains(&sp_n);
+    if in_range != (real == "V") {
+        rep.oracle.push(format!("encrypt_with_proof returned {real} for security_param {:?} :: {ctx}", c.sp));
+    }
+    let (p, h) = match (res, handle(&mres)) {
+        (Ok(Ok(p)), Some(h)) => (p, h),
+        _ => return,
+    };
+    rep.n_nontrivial += 1;
+    // serialisation
+    let bytes = real_to_bytes(&p).unwrap_or_default();
+    let mb = m.to_bytes(cv, &h);
+    rep.cmp("to_bytes", &ctx, &format!("V {}", hx(&bytes)), &mb);
+    // verify / decrypt of the object itself
+    let v = real_verify(&p, &q_point, &pk, &label);
+    rep.cmp("verify", &ctx, &v, &m.verify(cv, &h, &qh, &c.key, &label));
+    let d = real_decrypt(&p, &q_point, &sk, &label);
+    rep.cmp("decrypt", &ctx, &d, &m.decrypt(cv, &h, &qh, &c.key, &label));
+    let want = format!("V {}", hex_of_big(&big_of_sc::<G>(&x)));
+    if v != "V" {
+        rep.oracle.push(format!("honest proof rejected: verify = {v} :: {ctx}"));
+    }
+    if d != want {
+        rep.oracle.push(format!("honest proof decrypts to [{d}], expected [{want}] :: {ctx}"));
+    }
+    // parse back
+    let (fb, p2) = real_from_bytes::<G>(&bytes);
+    let mfb = m.from_bytes(cv, &bytes);
+    let mclass = if mfb.starts_with("V ") { "V".to_string() } else { mfb.clone() };
+    rep.cmp("from_bytes", &ctx, &fb, &mclass);
+    match (p2, handle(&mfb)) {
+        (Some(p2), Some(h2)) => {
+            let b2 = real_to_bytes(&p2).unwrap_or_default();
+            rep.cmp("to_bytes(from_bytes)", &ctx, &format!("V {}", hx(&b2)), &m.to_bytes(cv, &h2));
+            let v2 = real_verify(&p2, &q_point, &pk, &label);
+            rep.cmp("verify(from_bytes)", &ctx, &v2, &m.verify(cv, &h2, &qh, &c.key, &label));
+            let d2 = real_decrypt(&p2, &q_point, &sk, &label);
+            rep.cmp("decrypt(from_bytes)", &ctx, &d2, &m.decrypt(cv, &h2, &qh, &c.key, &label));
+            if b2 != bytes || v2 != "V" || d2 != want {
+                rep.oracle.push(format!("round trip differs: reserialised equal={} verify={v2} decrypt=[{d2}] expected [{want}] :: {ctx}", b2 == bytes));
+            }
+        }
+        (None, _) => rep.oracle.push(format!("from_bytes(to_bytes(p)) = {fb} :: {ctx}")),
+        _ => {}
+    }
+    if rep.samples.len() < 6 {
+        rep.samples.push(format!("{ctx} proof_bytes={} verify={v} decrypt={d}", bytes.len()));
+    }
+    m.reset();
+}
+
+/// small pure functions of the model compared on their own (BigUint codecs, mod_inverse)
+fn run_small(seed: u64, m: &mut Model, rep: &mut Report, n: usize) {
+    use num_bigint_dig::ModInverse;
+    let mut r = rng(seed, "c09-small");
+    for i in 0..n {
+        let len = [0usize, 1, 2, 31, 32, 33, 64][i % 7];
+        let mut b = vec![0u8; len];
+        r.fill_bytes(&mut b);
+        if i % 3 == 0 && len > 1 {
+            b[0] = 0;
+        }
+        if i % 9 == 0 {
+            b.iter_mut().for_each(|x| *x = 0);
+        }
+        let v = BigUint::from_bytes_be(&b);
+        let real = format!("{} {}", hex_of_big(&v), hx(&v.to_bytes_be()));
+        let model = m.call("c09.bu", &[hx(&b)]);
+        rep.cmp("BigUint from_bytes_be/to_bytes_be", &hx(&b), &real, &model);
+        rep.kind("biguint-codec");
+        // mod_inverse against the modulus of a key (and small moduli with common factors)
+        let n_big = if i % 4 == 0 { BigUint::from(3u32 * 5 * 7 * 11 * 13) << (i % 5) } else { m.keys.pk(m.keys.map.keys().next().unwrap()).n().clone() };
+        let g = if i % 5 == 0 { BigUint::from((i % 40) as u32) } else { v.clone() };
+        let real = match g.clone().mod_inverse(&n_big).and_then(|x| x.to_biguint()) {
+            Some(x) => format!("1 {}", hex_of_big(&x)),
+            None => "0".into(),
+        };
+        let model = m.call("c09.modinv", &[hex_of_big(&g), hex_of_big(&n_big)]);
+        rep.cmp("mod_inverse", &format!("g={} n={}", hex_of_big(&g), hex_of_big(&n_big)), &real, &model);
+        rep.kind("mod-inverse");
+    }
+}
+
+pub fn run(kv: &Args) -> i32 {
+    let seed = kv.u64("seed", 1);
+    let out = kv.str("out", "/verif/build/run/C09");
+    std::fs::create_dir_all(&out).unwrap();
+    quiet_panics();
+    let thorough = kv.thorough();
+    let key_ids: Vec<&str> = if thorough { vec!["a1024", "a2048", "a3072", "a4096"] } else { vec!["a1024", "a2048"] };
+    let keys = Keys::generate(seed, &key_ids);
+    let mut m = Model::new(&keys);
+    let mut rep = Report::default();
+    let mut log = std::fs::File::create(format!("{out}/cases.txt")).unwrap();
+    run_small(seed, &mut m, &mut rep, if thorough { 400 } else { 60 });
+
+    // case table: x kinds x labels x security parameters x keys x rng kinds
+    let labels = [0usize, 1, 32, 1024];
+    let sps_ok = [None, Some(128), Some(129), Some(200), Some(256)];
+    let sps_bad = [Some(0usize), Some(127), Some(257), Some(65536)];
+    let n_ok = kv.u64("cases", if thorough { 110 } else { 10 }) as usize;   // per curve
+    let mut cases = vec![];
+    for i in 0..n_ok {
+        cases.push(Case {
+            id: i,
+            key: key_ids[(i / 2) % key_ids.len()].to_string(),
+            xkind: i % 7,
+            label_len: labels[(i / 3) % 4],
+            sp: sps_ok[if i < 7 { 0 } else { i % 5 }],
+            // every third case uses a crafted rng: all nonces with 1 (or 2) leading zero repr bytes
+            zeros: if i % 3 == 1 { 1 + (i / 3) % 2 } else { 0 },
+        });
+    }
+    for (j, sp) in sps_bad.iter().enumerate() {
+        cases.push(Case { id: n_ok + j, key: key_ids[0].to_string(), xkind: 6, label_len: 1, sp: *sp, zeros: 0 });
+    }
+    for c in &cases {
+        run_case::<k256::ProjectivePoint>(c, seed, &mut m, &mut rep, &mut log);
+        run_case::<EdwardsPoint>(c, seed, &mut m, &mut rep, &mut log);
+    }
+    rep.write(&out, m.drv.queries);
+    0
 }
